@@ -133,7 +133,10 @@ class TransposeChromatic(NoteTransformer):
 
         dict_pitches = chord.pitch_dict
         pitch = chord.to_pitch(note)
-        ref_note = dict_pitches[(pitch + self.n) % 12].o((pitch + self.n)//12)
+        # pitch_dict is keyed by the pitches of the octave starting on the chord root
+        root = chord.scale_pitches[0]
+        delta = pitch + self.n - root
+        ref_note = dict_pitches[root + delta % 12].o(delta // 12)
         new_note = note.copy()
         new_note.val = ref_note.val
         new_note.type = ref_note.type
